@@ -64,7 +64,7 @@ class Stats:
         self.maxima: Dict[str, float] = {}
 
     def record(self, case: Any, info: Optional[Dict[str, Any]]) -> None:
-        self.evaluations += 1
+        self.evaluations += int(info.get('evaluations', 1)) if info else 1
         h = case_hash(case)
         self.all_hashes.add(h)
         if not info:
